@@ -1329,6 +1329,65 @@ static Result run_index(const json &c) {
   return r;
 }
 
+
+// ------------------------------------------------------------------------------------------------ bead counts at the
+// width of the fixed atom-number columns (gro, pdb: five digits wrap at 100000).  The case is compact; beads and
+// coordinates are a pure function of it, expanded into the ordinary trajectory case.
+static json expand_large(const json &c) {
+  std::string fname = c.at("fmt");
+  const Fmt &F = formats().at(fname);
+  long n = c.at("n");
+  json full;
+  full["fmt"] = fname;
+  full["res"] = json::array({"RESA", "RESB"});
+  json beads = json::array();
+  static const char *nm[] = {"A", "B1", "C2", "DD", "E"};
+  static const char *ty[] = {"TA", "TB", "TC"};
+  for (long i = 0; i < n; ++i) beads.push_back({nm[i % 5], ty[i % 3], int((i * 2) / n), 1.0 + double(i % 7), 0.0});
+  full["beads"] = beads;
+  bool hasvel = F.vel && c.at("hasvel").get<bool>();
+  full["hasvel"] = hasvel;
+  full["hasforce"] = false;
+  full["fullwidth"] = false;
+  full["boxkind"] = 1;
+  json frames = json::array();
+  long mul = c.at("mul");
+  for (int k = 0; k < int(c.at("nframes")); ++k) {
+    json f;
+    f["step"] = 10 + k;
+    f["time"] = double(10 + k) * 0.5;
+    f["box"] = F.boxcomp ? json::array({30.0, 0.0, 0.0, 0.0, 30.0, 0.0, 0.0, 0.0, 30.0}) : json::array({0.0, 0.0, 0.0, 0.0, 0.0, 0.0, 0.0, 0.0, 0.0});
+    f["boxtype"] = "auto";
+    std::vector<double> x, v;
+    double lim = std::min(F.ppos, 9.0);
+    for (long i = 0; i < 3 * n; ++i) x.push_back(double(((i + k) * mul) % 2000) / 2000.0 * 2 * lim * 0.9 - lim * 0.9);
+    if (hasvel)
+      for (long i = 0; i < 3 * n; ++i) v.push_back(double(((i + k) * (mul + 2)) % 1000) / 1000.0 - 0.5);
+    f["x"] = x;
+    f["v"] = v;
+    f["f"] = std::vector<double>();
+    frames.push_back(f);
+  }
+  full["frames"] = frames;
+  return full;
+}
+static Result run_traj(const json &c);
+static Result run_large(const json &c) {
+  Result r = run_traj(expand_large(c));
+  r.cls("n=" + std::to_string(long(c.at("n"))));
+  r.nontrivial = true;
+  return r;
+}
+static json gen_large() {
+  json c;
+  c["fmt"] = pick<std::string>({"gro", "gro", "pdb"});
+  c["n"] = pick<long>({99999, 100000, 100001, 100003, 131072});
+  c["hasvel"] = rbool(30);
+  c["nframes"] = ri(1, 2);
+  c["mul"] = pick<long>({7, 13, 37, 101});
+  return c;
+}
+
 int main(int argc, char **argv) {
   std::vector<Sub> subs;
   // cheap, in-process subs first: their statistics survive a budget kill of the forking subs on a loaded box
@@ -1340,5 +1399,7 @@ int main(int argc, char **argv) {
     std::string fn = f;
     subs.push_back({fn, [fn] { return gen_traj(fn); }, run_traj, 1.0, 100, nullptr});
   }
+  // a handful of cases per run (share ~0): bead counts around the five-digit atom-number columns
+  subs.push_back({"fieldwidth_beadcount", gen_large, run_large, 0.0004, 100, nullptr});
   return harness_main(argc, argv, "C08", subs);
 }
